@@ -43,6 +43,12 @@ CHECKS = {
  "C13": dict(engine="mon-pipe+mon-audit", cat="fault_enumeration", tech="state-confirmed cancellation injection with goroutine-dump hang classification; logical-clock check for deliveries after return; -race",
    text="Worker x blocking state x downstream capacity enumerated; each state is confirmed from the goroutine dump before cancel(); the worker must return (stuck = parked after the watchdog, otherwise inconclusive) and nothing may be delivered after the observed return.",
    note="A blocked output writer is not among the listed states and is not injected.", ref="4 C13"),
+ "C14": dict(engine="mon-audit", cat="exploration", tech="differential runtime monitor: emitted UserAction vs go-libaudit coalescing of fresh copies of the same lines; snapshot/aliasing check of the stored login",
+   text="Sessions with a bound login and up to 500 record groups through Auditd.Read; every emitted UserAction is compared (type, component, timestamp, session, outcome per result token, action/how/object, process_args presence and content) with the event coalesced from fresh copies; the stored login is snapshotted before and after and the emitted subjects map is mutated to expose aliasing.",
+   note="go-libaudit's aucoalesce is the oracle for the summary; the outcome expectation comes from the generator's token.", ref="4 C14"),
+ "C15": dict(engine="mon-audit", cat="fault_enumeration", tech="fault enumeration on Auditd.Read under the race detector: malformed line / failing k-th write / invalid login / unparsable pid at every position, hang classification for swallowed faults; exactly-once whole-group check on interleaved streams",
+   text="Each fault kind is injected at every position in turn; Read must return an error that identifies the line or wraps the injected cause (errors.Is/As); a fault that leaves Read parked is a violation. Clean and line-wise interleaved streams must yield exactly one UserAction per kernel event that reflects all its records.",
+   note="auparse.ParseLogLine is the judge of well-formedness.", ref="4 C15"),
 }
 
 NOT_YET = {
